@@ -20,7 +20,7 @@ ALLOWED_AXIOMS = {'propext', 'Classical.choice', 'Quot.sound'}
 #   ASSERT[op][p.key] = properties for which a 0 is a violation (oracle evaluated on the Go side)
 # --------------------------------------------------------------------------------------
 KEYS = {
-  'gen':   {'pseudo': (['C01'], []), 'caps': (['C17'], []), 'legal': (['C01', 'C10'], []), 'legaluci': ([], ['C01', 'C10']),
+  'gen':   {'pseudo': ([], []), 'caps': (['C17'], []), 'legal': (['C01', 'C10'], []), 'legaluci': ([], ['C01', 'C10']),
             'check': (['C12', 'C01', 'C10'], ['C12', 'C01', 'C10']), 'capsfilter': (['C17'], [])},
   'attby': {'attby': (['C12'], ['C12'])},
   'att':   {'att': (['C12'], ['C12'])},
